@@ -197,8 +197,8 @@ func c03Triple(r *vx.Rand) {
 	recoverAndAudit(w, s.keys, r, r.Intn(6), a)
 }
 
-// agedShape: a shape whose transaction is OLD when Commit is called — more than MaxTxnTimeUse (24 h; 2PC and 1PC, the async
-// modes only with HUBRUN_OLD_ASYNC, see genShape) or a few seconds (beyond the async-commit safe window: the store refuses
+// agedShape: a shape whose transaction is OLD when Commit is called — more than MaxTxnTimeUse (24 h; every commit mode, the async
+// modes unless HUBRUN_OLD_ASYNC=0, see genShape) or a few seconds (beyond the async-commit safe window: the store refuses
 // one-phase / async commit because of max_commit_ts) — with the safe window widened or not, mostly in one region so that
 // one-phase commit is really tried.
 func agedShape(r *vx.Rand, i int) shape {
@@ -210,8 +210,18 @@ func agedShape(r *vx.Rand, i int) shape {
 		s.ageMs = 25*3600*1000 + int64(r.Intn(3600*1000))
 		s.wideWindow = r.Chance(70)
 		s.mode = []string{"1pc", "2pc", "1pc"}[(i/2)%3]
-		if os.Getenv("HUBRUN_OLD_ASYNC") != "" {
+		if os.Getenv("HUBRUN_OLD_ASYNC") != "0" {
 			s.mode = modes[(i/2)%len(modes)]
+		}
+		if s.mode == "async" || s.mode == "both" {
+			// the store accepts async commit for so old a transaction only inside a widened safe window (otherwise the shape
+			// is a plain 2PC one); no failing existence check, so that the prewrites are all acknowledged
+			s.wideWindow = true
+			for k := range s.kinds {
+				if s.kinds[k] == "insdel" {
+					s.kinds[k] = "put"
+				}
+			}
 		}
 	} else {
 		s.ageMs = 2500 + int64(r.Intn(8000))
@@ -238,6 +248,14 @@ func runC03() {
 		s := agedShape(r, i)
 		c03Scenario(s, nil, r.Fork())
 		c03Scenario(s, []c03Fault{{pick(r, c03Kinds), r.Intn(4)}}, r.Fork())
+		// … and with another client meeting the locks / the committer cut off at EVERY request index: what Commit decided
+		// from the transaction's age must agree with what a resolver makes of the locks it left at that instant
+		cnt := probe(s, r.Fork())
+		for at := 0; at < cnt; at++ {
+			for _, k := range []string{"expire", "blackout-before"} {
+				c03Scenario(s, []c03Fault{{k, at}}, r.Fork())
+			}
+		}
 		rec.Count("c03:family:aged")
 	}
 	for n := 0; n < nShapes; n++ {
